@@ -220,3 +220,33 @@ pub fn run_c03(ctx: &mut Ctx) {
     let n = ctx.count(6_000, 150_000);
     ctx.run("direct-instantiation", n, direct_strategy(), direct_check);
 }
+
+/// C20, second sentence: in the build configuration of this worker (a cargo feature choice) the
+/// algorithms whose implementation the features select still give the reference results.
+pub fn run_c20(ctx: &mut Ctx) {
+    let cfg = ctx.cfg_label();
+    for v in 0..7 {
+        let n = ctx.count(1_500, 40_000);
+        let l = cfg.clone();
+        ctx.run(&format!("chacha/{}", refmodels::chacha::VARIANTS[v].name), n, chacha_stream::c01_strategy(v), move |c, i| {
+            i.label(format!("feature configuration {}", l));
+            relabel(chacha_stream::c01_check(c, i), "features")
+        });
+    }
+    for fam in [hashes::Family::Blake, hashes::Family::Jh, hashes::Family::Groestl, hashes::Family::Skein] {
+        let specs = if fam == hashes::Family::Skein { hashes::c08_hashes().into_iter().filter(|h| h.family == fam).collect() } else { hashes::by_family(fam) };
+        let names: Vec<String> = specs.iter().map(|s| s.name.clone()).collect();
+        let blocks: Vec<usize> = specs.iter().map(|s| s.block).collect();
+        let n = ctx.count(2_000, 50_000);
+        let strat = (0..names.len(), any::<u64>(), any::<u16>(), crate::gen::pattern()).prop_map(move |(h, seed, l, pat)| hashes::ConfCase {
+            hash: names[h].clone(),
+            msg: crate::gen::Msg { seed, len: (l as usize) % (5 * blocks[h] + 1), pat },
+        });
+        let s2 = specs.clone();
+        ctx.run(&format!("digest/{:?}", fam), n, strat, move |c, i| relabel(hashes::conf_check("digest", &s2, c, i), "features"));
+    }
+    let n = ctx.count(5_000, 100_000);
+    ctx.run("threefish", n, crate::props::threefish::tf_strategy(), |c, i| {
+        relabel(crate::props::threefish::c09_check(c, i).and_then(|_| crate::props::threefish::c10_check(c, i)), "features")
+    });
+}
